@@ -54,10 +54,12 @@ Definition plain_digits (p : Z -> bool) (l : list Z) : bool :=
 (* ---- integers ---- *)
 Definition int_base (text : list Z) : Z * list Z :=
   match text with
-  | 48 :: c :: r =>
-      if (c =? 98) || (c =? 66) then (2, r)
-      else if (c =? 111) || (c =? 79) then (8, r)
-      else if (c =? 120) || (c =? 88) then (16, r)
+  | c0 :: c :: r =>
+      if c0 =? 48 then
+        if (c =? 98) || (c =? 66) then (2, r)
+        else if (c =? 111) || (c =? 79) then (8, r)
+        else if (c =? 120) || (c =? 88) then (16, r)
+        else (10, text)
       else (10, text)
   | _ => (10, text)
   end.
@@ -70,8 +72,9 @@ Definition int_wf (text : list Z) : bool :=
   let (b, ds) := int_base text in
   if b =? 10 then
     match text with
-    | 48 :: r => sep_digits (fun c => c =? 48) r                  (* zeros with single separators *)
-    | c :: r => (49 <=? c) && (c <=? 57) && sep_digits is_dec r    (* 1-9 then digits with single separators *)
+    | c :: r =>
+        if c =? 48 then sep_digits (fun c => c =? 48) r                (* zeros with single separators *)
+        else (49 <=? c) && (c <=? 57) && sep_digits is_dec r           (* 1-9 then digits with single separators *)
     | [] => false
     end
   else sep_digits1 (is_digit_of b) ds.
